@@ -395,8 +395,10 @@ def sumproduct(*args):
         x if isinstance(x, (float, int)) and not isinstance(x, bool) else 0
         for x in flatten(arg)) for arg in args))
 
-    # return the sum product
-    return np.sum(np.prod(values, axis=0))
+    # return the sum product, as a python number so that functions which
+    # test for int/float (SUM, COUNT, MAX, ISNUMBER...) recognize the result
+    result = np.sum(np.prod(values, axis=0))
+    return result.item() if isinstance(result, np.generic) else result
 
 
 @excel_math_func
